@@ -374,3 +374,41 @@ def big_clean_spec(g, mode=(False, ''), sort='-'):
     stale = [(1, b'TestGoneEarly/sub - 1', b'old early'), (1, b'TestGoneMiddle - 3', b'old middle\nsecond line')]
     return dict(cfgs=[cfg_line(1, 'snaps')], nfiles=1, tests=[(b'TestBigClean', calls)], stale=stale, count=1, shuffle=4,
                 stale_files=[], decoys=False, mode=mode, sort=sort, flags=set())
+
+
+def junk_worlds(prefix):
+    """Hand-edited files: between well-formed entries there are lines that LOOK like headers but are
+    not (`[note]`, `[T - 1a]`, `[ - ]`, `[T - ]x`, `T - 1]`), plain text and blank lines.  Clean must
+    treat exactly the lines getTestID accepts as headers.  Correspondence only (model = loop-faithful
+    exScan), in every mode, with and without sorting."""
+    junk = [b'[note]', b'[TestA - 1a]', b'[ - ]', b'[TestA - ]x', b'TestA - 1]', b'free text', b'', b'[TestA- 1]',
+            b'[TestA -1]', b'[TestA - 1] ', b' [TestA - 1]', b'[TestA - 0x1]', b'[]', b'[', b']', b'[TestA - -1]',
+            b'[TestA - 1][TestB - 1]', b'[TestA - 1 - 2]', b'[x]y - 3]', b'[TestB/sub[0] - 1x]']
+    worlds = []
+    for mi, (mode, srt) in enumerate([((False, ''), '-'), ((False, 'clean'), '0'), ((False, ''), '1'), ((False, 'clean'), '1'),
+                                      ((True, 'clean'), '1'), ((False, 'true'), '-')]):
+        for variant in range(3):
+            w = World('%s-junk-%d-%d' % (prefix, mi, variant))
+            w.add(mode_line(*mode))
+            w.add(cfg_line(1, 'snaps'))
+            entries = [(b'TestB - 1', b'b1'), (b'TestA - 2', b'a2'), (b'TestGone - 1', b'gone'), (b'TestA - 1', b'a1')]
+            content = b''
+            for k, (i, b) in enumerate(entries):
+                js = junk[(k * 5 + variant * 7) % len(junk):][:4 + variant]
+                content += b'\n'.join(js) + b'\n' + frame(i, b)
+            if variant == 2:
+                content += b'\n'.join(junk) + b'\n'
+            w.add('fsput %s %s' % (hx('snaps/zz_verif_harness_test.snap'), hx(content)))
+            w.add('begin 1 ' + hx(b'TestA'))
+            w.add('snap 1 1 ' + hx(b'a1'))
+            w.add('snap 1 1 ' + hx(b'a2'))
+            w.add('end 1')
+            w.add('begin 2 ' + hx(b'TestB'))
+            w.add('snap 1 2 ' + hx(b'b1'))
+            w.add('end 2')
+            w.add('clean %s - 1' % srt)
+            w.add('fsdump')
+            w.add('clean %s - 1' % srt)
+            w.add('fsdump')
+            worlds.append(w)
+    return worlds
